@@ -351,15 +351,15 @@ func (s *Solver) Close() {
 // Portfolio routes queries: FloatingPoint queries go to cvc5; everything else goes to z3 with a
 // short soft limit and falls back to cvc5 (longer limit) when z3 is inconclusive.
 type Portfolio struct {
-	mu       sync.Mutex
-	z3, cvc  *Solver
-	cross    bool // thorough tier: every conclusive answer is cross-checked on the other solver
-	Disagree int
-	logPref  string
-	SoftZ3   int
-	SoftCVC  int
-	lastSat  *Solver
-	Fallback int
+	mu         sync.Mutex
+	z3, cvc    *Solver
+	cross      bool // thorough tier: every conclusive answer is cross-checked on the other solver
+	Disagree   int
+	logPref    string
+	SoftZ3     int
+	SoftCVC    int
+	lastSat    *Solver
+	Fallback   int
 	z3Timeouts int
 }
 
